@@ -1,6 +1,6 @@
 (* C01/Props.v — property theorems only. *)
 From Coq Require Import List String ZArith.
-From Exo Require Import Base.Store Ledger.Ledger Ledger.IndexInv Ledger.NonNeg C01.Model C01.Proofs C01.Proofs_nn.
+From Exo Require Import Base.Store Ledger.Ledger Ledger.IndexInv Ledger.NonNeg C01.Model C01.Proofs C01.Proofs_nn C01.Proofs_escrow.
 Import ListNotations.
 Local Open Scope string_scope.
 Local Open Scope Z_scope.
@@ -42,11 +42,28 @@ Proof. exact reachable_invariants. Qed.
 Print Assumptions C01_reachable_invariants.
 
 (* T.2  ... and in every such state, whatever well-formed operation comes next (accepted or rejected, any amounts), the
-   value of asset a does not increase unless the operation is a deposit (or genesis-loaded deposit) of a. *)
+   value of asset a does not increase unless the operation is a deposit (or genesis-loaded deposit) of a or, for the native
+   token, a delegation (bank account -> escrow). *)
 Theorem C01_only_deposit_increases : forall s o a, idx_inv s -> nn s -> wf_op o = true ->
-  value a (fst (step s o)) <= value a s \/ is_deposit_of a o = true.
+  value a (fst (step s o)) <= value a s \/ is_inflow_of a o = true.
 Proof. exact only_deposit_step. Qed.
 Print Assumptions C01_only_deposit_increases.
+
+(* T.4  Escrow: along every history of well-formed operations (native-token delegations / undelegations / completions,
+   slashes of native pools and of native pending undelegations, and everything on the other assets) the x/bank balance
+   of the delegation escrow account is at least the native pools plus what the native pending undelegations still owe,
+   provided it was so at the start (the empty ledger: 0 <= 0). Slashed native tokens are only written off the pool /
+   the record; the coins stay in the escrow account, so a slash can only widen the gap. [escrow_ok_d] is the boolean
+   the monitor evaluates on the implementation's stores. *)
+Theorem C01_escrow : forall ops s0, idx_inv s0 -> nn s0 -> hist_ok s0 ops = true -> forallb esc_op ops = true ->
+  value native_id s0 <= escrow s0 -> value native_id (run ops s0) <= escrow (run ops s0).
+Proof. exact escrow_all. Qed.
+Print Assumptions C01_escrow.
+
+Theorem C01_escrow_monotone : forall s o, idx_inv s -> nn s -> wf_op o = true -> esc_op o = true ->
+  escrow s - value native_id s <= escrow (fst (step s o)) - value native_id (fst (step s o)).
+Proof. exact step_egap. Qed.
+Print Assumptions C01_escrow_monotone.
 
 (* UpdateAssetValue never produces a negative figure from a non-negative one, and applies exactly the delta *)
 Theorem C01_update_guard : forall v d v', 0 <= v -> upd_val v d = Some v' -> 0 <= v' /\ v' = v + d.
@@ -66,3 +83,13 @@ Example ex_value : value "a1" (run ex_ops (empty_st 1 ["o1"] ["o1"] ["a1"])) = 1
 Proof. vm_compute. reflexivity. Qed.
 Example ex_empty_inv : idx_inv (empty_st 1 ["o1"] ["o1"] ["a1"]) /\ nn (empty_st 1 ["o1"] ["o1"] ["a1"]).
 Proof. split; [apply empty_idx_inv; discriminate | apply empty_nn]. Qed.
+
+(* non-vacuity of T.4: a native-token history (delegate from a bank account, undelegate, slash, complete) *)
+Definition ex_native_s0 : st := w_bank [("acct", 1000)] (empty_st 1 ["o1"] [] []).
+Definition ex_native_ops : list op :=
+  [Delegate "acct" native_id "o1" 600; Undelegate "acct" native_id "o1" 200 3 "t1"; Slash "o1" 1 (Some 250000000000000000);
+   EndBlock; EndBlock; EndBlock; EndBlock; EndBlock; EndBlock; EndBlock; EndBlock; EndBlock; EndBlock; EndBlock].
+Example ex_native : let s := run ex_native_ops ex_native_s0 in
+  hist_ok ex_native_s0 ex_native_ops = true /\ forallb esc_op ex_native_ops = true /\
+  escrow s = 450 /\ value native_id s = 300 /\ bank_bal s "acct" = 550.
+Proof. vm_compute. repeat split; reflexivity. Qed.
